@@ -2,7 +2,7 @@
 from . import streams_dist, streams_dist2
 
 ID = 'C06'
-PROPS_MODULE = ['Refine.Props.C06', 'Refine.Props.C06Ghost', 'Refine.Props.C06Ids', 'Refine.Props.C06Shufflin']
+PROPS_MODULE = ['Refine.Props.C06', 'Refine.Props.C06Ghost', 'Refine.Props.C06Ids', 'Refine.Props.C06Shufflin', 'Refine.Props.C06Local']
 STREAMS = streams_dist.STREAMS + streams_dist2.STREAMS
 TECHNIQUE = 'Lean 4 theorems about an executable SPMD model (World = list of per-rank states) + differential ' \
             'execution against the real ref_node/ref_cell/ref_migrate/ref_adapt code under mpiexec + the model ' \
